@@ -28,13 +28,12 @@ for name in names:
         m = json.load(open(os.path.join(sd, "meta.json")))
         m["recheck"] = {"tier": tier, "exit": r.returncode}
         json.dump(m, open(os.path.join(sd, "meta.json"), "w"), indent=1)
-        subprocess.run(["git", "-C", verif, "checkout", "-q", "--", "evidence/%s.json" % pid], capture_output=True)
         for f in glob.glob(os.path.join(verif, "replays", pid, "new-*")):
             os.remove(f)
     finally:
         shutil.rmtree(d, ignore_errors=True)
         h = hashlib.sha1(d.encode()).hexdigest()
-        for sub in ("mod-" + h[:10], os.path.join("c20", h[:10]), os.path.join("cfuzz", h[:10])):
+        for sub in ("mod-" + h[:10], os.path.join("c20", h[:10]), os.path.join("cfuzz", h[:10]), os.path.join("alt", h[:8])):
             shutil.rmtree(os.path.join(verif, ".work", sub), ignore_errors=True)
         for f in glob.glob(os.path.join(verif, ".work", "bin", "*-" + h[:8] + ".test")):
             os.remove(f)
